@@ -9,6 +9,7 @@ import (
 	"reflect"
 	"strconv"
 	"strings"
+	"sync"
 	"time"
 
 	"github.com/pingcap/advanced-statefulset/client/apis/apps/v1/helper"
@@ -143,7 +144,7 @@ func c18Judge(sts *appsv1.StatefulSet, revs []*appsv1.ControllerRevision) explor
 			out = append(out, oracle.Violation{Prop: "C18", Rule: rule, Msg: fmt.Sprintf(f, a...)})
 		}
 		for _, c := range v.Rec.Calls {
-			if c.Verb == "create" && c.Resource == "controllerrevisions" && c.OK() {
+			if c.Verb == "create" && c.Resource == "controllerrevisions" && c.Applied {
 				bad("new-revision-after-migration", "%s: a new revision was created although the built-in history records the template", c.ID)
 			}
 			if c.Verb == "delete" && c.Resource == "controllerrevisions" && names[c.Name] {
@@ -304,45 +305,71 @@ func init() {
 			}
 		}
 		deadline := explore.Deadline(90*time.Second, 15*time.Minute)
-		w := world.New()
 		var totalStates, totalRec int64
 		done := 0
-		for _, c := range cases {
-			if time.Now().After(deadline) {
-				rep.Exhaustive, rep.Cap = false, fmt.Sprintf("deadline after %d of %d migration cases", done, len(cases))
-				break
-			}
-			st, sts, revs, err := c.build(w)
-			if err != nil {
-				rep.Violation("C18", "upgrade-failed", c.String()+": "+err.Error(), nil)
-				continue
-			}
-			sub := explore.NewReport("C18", "model_checking")
-			cfg := explore.SearchCfg{Prop: "C18", D: 0, Judge: c18Judge(sts, revs), Goal: c18Goal(sts, revs), Deadline: deadline,
-				Progress: func(s *world.State) []string { return append(world.EnvProgress(s), world.GCProgress(s, builtinUID)...) }}
-			g := explore.Search(sub, cfg, []explore.Seed{{Label: "after Upgrade of: " + c.String(), State: st}})
-			g.Analyse()
-			g.CheckConvergence(sub)
-			sub.MergeInto(rep)
-			totalStates += int64(len(g.Nodes))
-			totalRec += g.Reconciles
-			done++
-			if done <= 2 {
-				for k, n := range g.Nodes {
-					if n.Bottom >= 0 {
-						p := g.PathTo(k)
-						rep.Sample(map[string]interface{}{"migration": c.String(), "one_interleaving_to_the_final_state": p.Transitions})
-						break
+		var mu sync.Mutex
+		ch := make(chan c18Case)
+		var wg sync.WaitGroup
+		for i := 0; i < explore.Workers(); i++ {
+			wg.Add(1)
+			go func() {
+				defer wg.Done()
+				w := world.New()
+				for c := range ch {
+					st, sts, revs, err := c.build(w)
+					if err != nil {
+						rep.Violation("C18", "upgrade-failed", c.String()+": "+err.Error(), nil)
+						continue
+					}
+					sub := explore.NewReport("C18", "model_checking")
+					cfg := explore.SearchCfg{Prop: "C18", D: 1, Judge: c18Judge(sts, revs), Goal: c18Goal(sts, revs), Deadline: deadline, Workers: 1, World: w,
+						// the migration is interrupted: any single write of the adopting reconciles fails, conflicts, loses its
+						// response or is followed by a crash
+						FaultKinds: []string{world.FErr500, world.FConflict, world.FTimeout, world.FCrashAfter},
+						FaultOn: func(c *world.Call) bool {
+							return c.IsWrite() && (c.Resource == "controllerrevisions" || c.Resource == "pods")
+						},
+						Progress: func(s *world.State) []string { return append(world.EnvProgress(s), world.GCProgress(s, builtinUID)...) }}
+					g := explore.Search(sub, cfg, []explore.Seed{{Label: "after Upgrade of: " + c.String(), State: st}})
+					g.Analyse()
+					g.CheckConvergence(sub)
+					sub.MergeInto(rep)
+					mu.Lock()
+					totalStates += int64(len(g.Nodes))
+					totalRec += g.Reconciles
+					done++
+					if !g.Complete {
+						rep.Exhaustive = false
+					}
+					first := done <= 2
+					mu.Unlock()
+					if first {
+						for k, n := range g.Nodes {
+							if n.Bottom >= 0 {
+								p := g.PathTo(k)
+								rep.Sample(map[string]interface{}{"migration": c.String(), "one_interleaving_to_the_final_state": p.Transitions})
+								break
+							}
+						}
 					}
 				}
-			}
+			}()
 		}
+		for i, c := range cases {
+			if time.Now().After(deadline) {
+				rep.Exhaustive, rep.Cap = false, fmt.Sprintf("deadline after %d of %d migration cases", i, len(cases))
+				break
+			}
+			ch <- c
+		}
+		close(ch)
+		wg.Wait()
 		rep.AddStates(totalStates, totalStates)
 		rep.Extra["templates_checked_for_byte_identity"] = nA
 		rep.Extra["migration_cases"] = done
 		rep.Extra["migration_states"] = totalStates
 		rep.Extra["migration_reconciles"] = totalRec
-		rep.Rule = fmt.Sprintf("(A) byte identity: for every template of a reflective generator over PodTemplateSpec (%d single-path mutations; thorough: all pairs in the first two levels) the real Match(FromBuiltin(sts), reference data) must hold, the reference being the built-in encoding. (B) migrations: built-in sets with histories T1..Tn (n=1..3), any current revision, 1..%d pods at any mix of current/update revision, partition 0/1, both policies, history limit 0/10; the real Upgrade runs, then all interleavings of real reconciles, one garbage-collector orphaning step per pod and revision, and kubelet progress are explored (explicit-state, deduplicated); oracle on every reconcile: no revision is created, no revision of the built-in history is deleted before adoption, a pod is deleted only if the built-in controller would (RollingUpdate, ordinal >= partition, revision != update revision); every bottom SCC is a quiescent state with all revisions adopted and label-synced, data unchanged, status.updateRevision = the built-in one, pods adopted and converged.", len(muts), maxPods)
+		rep.Rule = fmt.Sprintf("(A) byte identity: for every template of a reflective generator over PodTemplateSpec (%d single-path mutations; thorough: all pairs in the first two levels) the real Match(FromBuiltin(sts), reference data) must hold, the reference being the built-in encoding. (B) migrations: built-in sets with histories T1..Tn (n=1..3), any current revision, 1..%d pods at any mix of current/update revision, partition 0/1, both policies, history limit 0/10; the real Upgrade runs, then all interleavings of real reconciles, one garbage-collector orphaning step per pod and revision, and kubelet progress are explored (explicit-state, deduplicated), also after any single interruption of the adopting reconciles (InternalError, conflict, lost response or crash at any write on revisions or pods); oracle on every reconcile: no revision is created, no revision of the built-in history is deleted before adoption, a pod is deleted only if the built-in controller would (RollingUpdate, ordinal >= partition, revision != update revision); every bottom SCC is a quiescent state with all revisions adopted and label-synced, data unchanged, status.updateRevision = the built-in one, pods adopted and converged.", len(muts), maxPods)
 		rep.Validated = totalRec + nA
 		return rep.Finish()
 	})
